@@ -116,7 +116,25 @@ def run(prog: Program, res: Result) -> None:  # noqa: PLR0912, PLR0915
                 )
                 if mutated:
                     res.fail("C09.R1", file=f.file, line=f.node.lineno, qualname=f.qualname, construct=f"mutable default {p.arg}={norm(dv)} mutated", message=f"mutable default argument `{p.arg}` is mutated: state survives across calls", what="no mutated mutable default")
-    res.ok("C09.R1", "liquid2/**", "no memoisation decorator on any function", f"{n_dec} decorators on {sum(1 for _ in prog.all_functions())} functions scanned")
+    # memoisers applied as a call rather than a decorator: `f = lru_cache(maxsize=256)(g)`, `cache(g)`
+    n_memo_calls = 0
+    for mod in prog.modules.values():
+        for c in ast.walk(mod.tree):
+            if not isinstance(c, ast.Call):
+                continue
+            name = dotted(c.func) or ""
+            ext = prog.resolve(mod, name) if name else None
+            full = ext if isinstance(ext, str) else name
+            if full in MEMO_DECORATORS or name.split(".")[-1] in ("lru_cache", "cache", "cached_property"):
+                n_memo_calls += 1
+                fi_ = prog.enclosing_function(mod, c)
+                if fi_ is not None and any(d is c or (isinstance(d, ast.Call) and d.func is c) for d in fi_.node.decorator_list):
+                    continue  # reported above as a decorator
+                par = mod.parent(c)
+                if any(isinstance(a, (ast.FunctionDef, ast.AsyncFunctionDef)) and (c in a.decorator_list or par in a.decorator_list) for a in ast.walk(mod.tree)):
+                    continue
+                res.fail("C09.R1", file=mod.relpath, line=c.lineno, qualname=fi_.qualname if fi_ else "<module>", construct=f"memoiser applied by call: {norm(par if isinstance(par, ast.Call) else c, 60)}", message=f"`{norm(par if isinstance(par, ast.Call) else c, 60)}` wraps a function in a process-wide memo: a result computed in one render (including clock-dependent ones such as a partial date string completed from today's date) is served to later renders", what="no memoiser applied by call")
+    res.ok("C09.R1", "liquid2/**", "no memoisation decorator on any function", f"{n_dec} decorators on {sum(1 for _ in prog.all_functions())} functions scanned; {n_memo_calls} memoiser call(s)")
     res.floor("C09.R1", "decorators scanned", n_dec, 40)
     # module-level containers mutated from inside functions
     n_glob = 0
